@@ -51,6 +51,12 @@ CHECKS = {
   text="For 1-6 macro keys in all variants the OS transitions on each macro's private keys are segmented by activation and must be complete repetitions of the harness's own expansion of the body (press/release order, modifier groups, nested lists; set semantics for keys pressed twice), each step at least 1 ms after the previous one and not earlier than the stated delays; nothing before the trigger, nothing down at the end; in configs without cancel variants every activation of a plain / repeating macro completes regardless of other keys typed; a repeating macro starts no round after its release was processed; no macro press after a release-cancel or cancel-on-press trigger took effect.",
   note="Times are lower bounds (the statement says 'at least'). Cancel variants cancel every running macro (documented), so completeness is only demanded in configs without them. With more than 4 macros running at once (documented limit) only 'nothing before the trigger, nothing left down' is demanded. Re-activating a macro while a copy may still run is skipped. F38 (cancel window overwritten) was found here and repaired."),
 
+ "C09": dict(
+  cat="exploration", ref="DESIGN.md §4 C09",
+  technique="generated chord tables (v1 defchords and v2 defchordsv2) with a metamorphic relation over press orders (every permutation of a chord's keys must give the same timestamped OS transitions as the sorted order) plus reference oracles (exactly-once firing, release rule, nothing swallowed, disabled layer); proptest shrinking",
+  text="For a chord of a generated table (overlapping chords, sub- and super-chords, both v2 release behaviours, disabled layers, timeouts 8/30) all its keys are pressed with a span well below, just inside, or beyond the timeout and released in a chosen order, optionally followed by a non-chord key: within the timeout the chord's action must appear exactly once and nothing else of the participants, be released per the release rule and no later than the last participant; beyond it the whole chord must not fire and no key may be swallowed; a participant alone gives its own action; a v2 chord does not fire on its disabled layer. Every permutation of the press order (up to 24) is run as well and must give the same observable result.",
+  note="Spans within 2 ms of the timeout are judged only metamorphically (v1 and v2 place the exact boundary differently). For v1 the statement only bounds when the chord output goes up, so order-independence is asserted on the timestamped presses. The v1 decomposition of undefined supersets is not modelled (only 'nothing swallowed')."),
+
  "C10": dict(
   cat="translation_validation", ref="DESIGN.md §4 C10",
   technique="translation validation by generated programs: boolean expression ASTs are printed into switch conditions, compiled by the real parser and run by the real evaluator on generated environments, and compared with a reference evaluation of the written expression; exhaustive over all small expression shapes x truth assignments, proptest-generated beyond",
